@@ -7,6 +7,7 @@ import (
 	"sort"
 	"strings"
 	"testing"
+	"time"
 
 	"pgregory.net/rapid"
 
@@ -37,6 +38,8 @@ func c06GenChart(t *rapid.T, ver int) world.ChartSpec {
 func c06GenChecked(t *rapid.T, ver int) *world.Op {
 	kind := rapid.SampledFrom([]string{"install", "install", "upgrade", "upgrade", "rollback", "uninstall", "uninstall", "template"}).Draw(t, "checkedOp")
 	op := &world.Op{Kind: kind}
+	// (--timeout: the command line default is 5m; a tiny one makes every pending record "old")
+	op.Timeout = rapid.SampledFrom([]time.Duration{0, 0, time.Nanosecond, 5 * time.Minute}).Draw(t, "timeout")
 	b := func(name string) bool { return rapid.Bool().Draw(t, name) }
 	op.DisableHooks = b("noHooks")
 	switch kind {
